@@ -420,9 +420,29 @@ Definition mon_C13_step (step : nat) (o : val) (prev cur : obs) (t : track) : li
   else
     flat_map (fun b => [viol k_c13_alive step [VB (b_chain b); VB (b_ext b); vNat (b_nonce b)]]) gone.
 
-Definition mon_C13 (c impl : val) : val :=
+Definition mon_C13_raw (c impl : val) : val :=
   VL (mon_fold (fun step o prev cur (t : track) => (mon_C13_step step o prev cur t, track_step o prev cur t))
                0 (vL (vnth 2 c)) (vL impl) empty_obs (track0 (vI (vnth 5 (vnth 0 c))))).
+
+(* C13/execution-event-dropped: the observation "executed, not removed" in exactly the histories where the model of the
+   current code (Hub/Model.v, run on the same history) keeps the batch as well, i.e. where the execution claim is dropped
+   because its handling fails (missing price, delisted token, arithmetic failure on the reported fee-paid value, > 18
+   decimals) -- the genuine defect recorded as a known finding.  Where the model removes the batch and the implementation
+   does not, the key stays C13/executed-not-removed. *)
+Definition k_c13_dropped := str [67;49;51;47;101;120;101;99;117;116;105;111;110;45;101;118;101;110;116;45;100;114;111;112;112;101;100]. (* C13/execution-event-dropped *)
+Definition mon_C13 (c impl : val) : val :=
+  let raw := vL (mon_C13_raw c impl) in
+  if existsb (fun v => veqb (vnth 0 v) k_c13_notremoved) raw then
+    let m := vL (hub_run c) in
+    VL (map (fun v =>
+               if veqb (vnth 0 v) k_c13_notremoved then
+                 let mo := dec_obs (nth (Z.to_nat (vI (vnth 1 v))) m (VL [])) in
+                 if existsb (fun b => beqb (b_chain b) (vB (vnth 2 v)) && beqb (b_ext b) (vB (vnth 3 v)) && N.eqb (b_nonce b) (vN (vnth 4 v)))
+                            (ob_batches mo)
+                 then match v with VL (_ :: r) => VL (k_c13_dropped :: r) | _ => v end
+                 else v
+               else v) raw)
+  else VL raw.
 
 (* ---------- C08 (hub side) ---------- *)
 (* A batch for an external contract stays available to its signers and relayers until its timeout height has been
@@ -570,6 +590,9 @@ Definition c19_records (step : nat) (prev cur : obs) (t : track) (chain coin : b
       else
         flat_map (fun e =>
                     if Nat.ltb 1 (count_hash (s_txhash e) (all_entries prev)) then [] else
+                    (* the batch was released (a later batch of its token was executed earlier in this block), not executed:
+                       its transfers are back in the pool and carry no fee record *)
+                    if in_entries e (all_entries cur) then [] else
                     match find (fun r : bytes * (Z * Z) => beqb (fst r) (s_txhash e)) (ob_feerec cur) with
                     | Some (_, (vc, ef)) =>
                         if (vc =? s_comm e) && (0 <=? ef) && (ef <=? s_fee e)
